@@ -136,7 +136,9 @@ func c07Property(t *rapid.T) {
 			}
 			got, want := x.N.View(probes...), x.N.FreshView(probes2...)
 			for i := range want {
-				if i < len(got) && (got[i].Status != want[i].Status || string(got[i].Ret) != string(want[i].Ret)) {
+				// the text of a failure may carry process-local detail (which nil was hit first); the outcome and the
+				// data of a successful read are compared
+				if i < len(got) && (got[i].Status != want[i].Status || (want[i].IsSuccess() && string(got[i].Ret) != string(want[i].Ret))) {
 					f.fail("read-only execution of %s after block %d answers %v %.80q on the node's view ledger and %v %.80q on a fresh one: an earlier read-only execution left something behind", b.txs[i].desc, h+1, got[i].Status, got[i].Ret, want[i].Status, want[i].Ret)
 				}
 			}
